@@ -146,7 +146,7 @@ def run(ctx: Context) -> None:
                 kind = _loop_kind(ctx, f, n, pool_f, loop)
                 rep.ob("C14.R3", fkey(tree, f, f"loop:{norm(n.test)[:40] if isinstance(n, ast.While) else norm(n.iter)[:40]}"), kind is not None, where(f, n),
                        f"loop containing request-sending call `{hits[0].text()}`: " + (kind or "not one of the allowed loops (pool retry, per-chunk, per-frame) - a request could be transmitted more than once"))
-        rep.floor("C14.R3", f"loops containing a send ({tree})", nloops, 4)
+        rep.floor("C14.R3", f"loops containing a send ({tree})", nloops, 3)
     rep.assume("a caller-supplied body iterator yields each chunk once (its state is outside the analysis)")
 
 
